@@ -90,6 +90,7 @@ theorem strnum_tie : G.facts_strnum = [
   ("trims:asciiString.toTrimmedUTF8", ["trimWhitespace(string(s))"]),
   ("trims:unicodeString.toTrimmedUTF8", ["strings.Trim(s.String(), parser.WhitespaceChars)"]),
   ("trims:importedString.toTrimmedUTF8", ["strings.Trim(i.s, parser.WhitespaceChars)"]),
+  ("conds:asciiString.ToInteger", ["ss == \"\"", "ss == \"Infinity\" || ss == \"+Infinity\"", "ss == \"-Infinity\"", "err != nil", "err == nil"]),
   ("returns:asciiString.ToInteger", ["0", "math.MaxInt64", "math.MinInt64", "floatToIntClip(f)", "0", "i"]),
   ("conds:asciiString._toFloat", ["trimmed == \"\"", "trimmed == \"-0\"", "strings.ContainsRune(trimmed, '_')", "base != 0", "digitVal(digits[i]) >= base", "!ok", "len(trimmed) >= 2", "trimmed[0] == '-' || trimmed[0] == '+'", "len(prefix) >= 2 && prefix[0] == '0' && (prefix[1] == 'x' || prefix[1] == 'X')", "err == nil && math.IsInf(f, 0)", "strings.HasPrefix(ss, \"inf\") || strings.HasPrefix(ss, \"-inf\") || strings.HasPrefix(ss, \"+inf\")", "isRangeErr(err)"]),
   ("returns:asciiString._toFloat", ["0, nil", "-f, nil", "0, strconv.ErrSyntax", "0, strconv.ErrSyntax", "0, strconv.ErrSyntax", "f, nil", "0, strconv.ErrSyntax", "0, strconv.ErrSyntax", "f, err"]),
